@@ -40,6 +40,11 @@ CLAIMS = {
   note="Reference matrices and per-epoch parameters are computed in the harness from the parameter values it generated. Molodensky bound: 5 mm + (D²/a)/cos(lat) (+ 2·D·(e²+|h|/a) abridged).",
   technique="runtime monitoring: independent reference model (EPSG matrices, per-epoch static operators) and invariant monitor over generated parameter sets",
   ref="DESIGN.md §2 C07"),
+ "C10": dict(
+  text="Held on the executions observed: for every catalogued operator, grid operator and one-way operator, per tuple: the count never exceeds the set, an uncounted tuple always carries NaN (never unchanged or transformed-but-valid), in-domain tuples are counted and finite in both directions, elements the operator does not work on come back bit-identical, NaN in an input element (and in random subsets of elements) reaches every output element that observably depends on it, points outside grid coverage are NaN and uncounted (unchanged and counted with @null), declared domain limits (tmerc strip inverse, laea disc, lcc opposite pole) are flagged, unsupported inverses return 0 and leave data bit-identical, and flat pipelines report the minimum of the per-step counts seen by the trace hook.",
+  note="Dependency of output element j on input element i is observed on the operator itself (perturbing i changes j), so no hand-written dependency matrix is trusted. Whether a counted tuple may hold NaN for NaN input is not asserted (the statement only constrains uncounted tuples and declared domain limits).",
+  technique="runtime monitoring: invariant monitor at the API boundary over in-domain, edge, far-outside and NaN-seeded tuples; hooked per-step counts",
+  ref="DESIGN.md §2 C10"),
  "C11": dict(
   text="Held on everything enumerated: all 1920 from-only and 1920 to-only descriptors, acceptance/rejection of all 4096 four-letter words with 5 valid and 8 invalid suffixes, adapt to=X against adapt inv from=X, all 442 signed partial permutations of axisswap plus all 177 000 index lists of length 1-5 over -5..5, all 24x24 unit pairs for xy and z against the published PROJ factors and the unit tables from the hook (each published name exactly once); quick adds 20 000 random from/to pairs, thorough enumerates all 1920 x 1920 pairs (exhaustive).",
   note="The reference mapping is a table-driven transcription of Rumination 002 (a descriptor is a signed permutation of e n u f with an optional angular unit for the horizontal axes). Exact (bit) where no unit factor is involved, 2 ulp otherwise.",
